@@ -12,6 +12,8 @@ def main():
     checks = sys.argv[4:]
     dst = os.path.join("/verif/seeded", name)
     os.makedirs(dst, exist_ok=True)
+    if os.path.exists(os.path.join(dst, "meta.json")):
+        shutil.copy(os.path.join(dst, "meta.json"), os.path.join(dst, "meta.prev.json"))
     for f in ("patch.diff", "demo.py", "meta.json"):
         shutil.copy(os.path.join(src, f), os.path.join(dst, f))
     log = {}
@@ -35,8 +37,18 @@ def main():
     log["checks"] = res
     sh(f"git -C {repo} checkout -- . && git -C {repo} clean -fdq")
     meta = json.load(open(os.path.join(dst, "meta.json")))
+    try:
+        prev = json.load(open(os.path.join(dst, "meta.prev.json"))).get("confirmed_by_main_session")
+    except Exception:
+        prev = None
+    if prev and "first_run" not in meta:
+        meta["first_run_before_strengthening"] = prev.get("checks")
     meta["confirmed_by_main_session"] = log
     json.dump(meta, open(os.path.join(dst, "meta.json"), "w"), indent=1)
+    try:
+        os.remove(os.path.join(dst, "meta.prev.json"))
+    except OSError:
+        pass
     print(name, json.dumps(log, indent=1)[:1800])
 
 main()
